@@ -40,7 +40,7 @@ EXTENDS Integers, Sequences, FiniteSets, TLC, Json
 CONSTANTS ND,          \* detectors 1..ND
           NS,          \* number of streams (names SOrder[1..NS], declared in this order when exploring)
           MaxF,        \* frames added per detector per Env step: 0..MaxF
-          MaxEnv, MaxCol, MaxPause, MaxCkpt,      \* bounds on the history
+          MaxEnv, MaxCol, MaxPause, MaxCkpt, MaxCfg,      \* bounds on the history
           GreedySets,  \* set of sets of detectors ignoring the index (chosen in Init)
           LazyModes,   \* subset of BOOLEAN: stream_resource with the first datum (TRUE) / at the first call (FALSE)
           WrongGroup,  \* BOOLEAN: also explore collects of a group that was not declared for the stream
@@ -107,7 +107,7 @@ InitWith(g, lz) ==
     /\ failed = FALSE
     /\ cache = <<>> /\ pend = <<>>
     /\ kf = FALSE
-    /\ cnt = [env |-> 0, col |-> 0, pause |-> 0, ckpt |-> 0]
+    /\ cnt = [env |-> 0, col |-> 0, pause |-> 0, ckpt |-> 0, cfg |-> 0]
     /\ mIdx = [d \in Dets |-> 0]
     /\ mSeq = [d \in Dets |-> 1]
     /\ viol = NoViol
@@ -232,6 +232,15 @@ Checkpoint ==
     /\ UNCHANGED <<decl, avail, last, res, greedy, lazy, ctr, phase, failed, pend, kf, mIdx, mSeq, viol>>
     /\ Log([E0 EXCEPT !.op = "checkpoint"])
 
+\* Msg('configure', det, ...): RunBundler.configure re-describes every stream the detector feeds (a new descriptor for the
+\* same stream): numbering, declared groups and what a rewind restores are not affected
+Configure(d) ==
+    /\ phase = "open" /\ ~failed /\ pend = <<>>
+    /\ d \in Declared
+    /\ cnt' = [cnt EXCEPT !.cfg = @ + 1]
+    /\ UNCHANGED <<decl, avail, last, res, greedy, lazy, ctr, copy, phase, failed, cache, pend, kf, mIdx, mSeq, viol>>
+    /\ Log([E0 EXCEPT !.op = "configure", !.ds = <<d>>])
+
 \* Msg('pause') ... RE.resume(): RunEngine._rewind -> RunBundler.rewind.  The messages since the last checkpoint are
 \* processed again before the plan continues: every cached collect is an ordinary Collect step (it hands out whatever
 \* frames its detectors have written since -- e.g. frames that arrived while another stream was being collected).
@@ -277,7 +286,8 @@ Next ==
     \* a checkpoint / a pause is placed right after a collect (a pause also right after that checkpoint): their effect
     \* depends on the counters only, which nothing else changes
     \/ cnt.ckpt < MaxCkpt /\ out.op = "collect" /\ pend = <<>> /\ Checkpoint
-    \/ cnt.pause < MaxPause /\ out.op \in {"collect", "checkpoint"} /\ pend = <<>> /\ Pause
+    \/ cnt.cfg < MaxCfg /\ out.op = "collect" /\ pend = <<>> /\ \E d \in Declared : Configure(d)
+    \/ cnt.pause < MaxPause /\ out.op \in {"collect", "checkpoint", "configure"} /\ pend = <<>> /\ Pause
     \* the run is closed when the bounds are used up (shorter histories are prefixes of these) or after a failure
     \/ (failed \/ (cnt.env = MaxEnv /\ cnt.col = MaxCol)) /\ Close
 
